@@ -390,6 +390,13 @@ def check_geometric(rep: Report, ix) -> None:
     ok = bool(returns(gi)) and all(isinstance(r.ast.value, ast.Call) and dotted(r.ast.value.func) == "self.next" and len(r.ast.value.args) == 1 and is_name(r.ast.value.args[0], Ti) for r in returns(gi))
     if not rep.oblige("geometric.initialize", ok):
         rep.violation("C09.geo-not-earlier", f"{fi.ref}::return", f"initialize must return self.next({Ti})", line=fi.node.lineno)
+    if not any(CUR in gi.defs_at(n) for n in gi.nodes):
+        # observation only (outside the property: one initialisation, non-decreasing queries)
+        rep.note(
+            f"observation: {fi.ref} does not reset {CUR} (ConstantInterrupts/FixedInterrupts.initialize do reset their cursor): "
+            "a geometric schedule that is initialised again (second run with the same tracker, PlotTracker.initialize calling "
+            "super().initialize twice) continues after its last answer instead of starting at the first lattice point >= t"
+        )
 
 
 # ---------------------------------------------------------------------------- LogarithmicInterrupts
